@@ -628,6 +628,21 @@ def _extrude_inputs(pp, C19, rng, quick):
                 g.nodes = R @ g.nodes + np.array([[0.5], [-1.0], [zoff]])
                 g.compute_geometry()
                 yield {"dim": 1, "x": x, "angle": a, "zoff": zoff}, g, x[-1] - x[0], R[:, 0], False
+    # a valid 1-d grid whose node numbering (and hence cell-face orientation) does not follow the line: nodes at x = 1, 0, 2, 3, cells
+    # (1,0), (0->... ) given by an explicit signed incidence; and its refinement
+    import scipy.sparse as _sps
+
+    xs = np.array([[1.0, 0.0, 2.0, 3.0], [0.0, 0.0, 0.0, 0.0], [0.0, 0.0, 0.0, 0.0]])
+    cf = _sps.csc_matrix(np.array([[-1, 1, 0], [0, -1, 0], [1, 0, -1], [0, 0, 1]]))
+    gp = pp.Grid(1, xs.copy(), _sps.identity(4, format="csc"), cf, "permuted 1d")
+    gp.compute_geometry()
+    yield {"dim": 1, "x": "permuted nodes [1,0,2,3]", "angle": 0.0, "zoff": 0.0}, gp, 3.0, np.array([1.0, 0.0, 0.0]), False
+    try:
+        gr = pp.refinement.refine_grid_1d(gp, 2)
+        gr.compute_geometry()
+        yield {"dim": 1, "x": "refinement of permuted nodes [1,0,2,3]", "angle": 0.0, "zoff": 0.0}, gr, 3.0, np.array([1.0, 0.0, 0.0]), False
+    except Exception:  # noqa: BLE001  (refine_grid_1d has its own clauses)
+        pass
     extra = [] if quick else [("cart", {"n": [3, 2]}, 6.0), ("stri", {"n": [3, 3], "phys": [3.0, 3.0]}, 9.0), ("stri", {"n": [1, 3], "phys": [0.5, 3.0]}, 1.5),
                              ("tensor", {"x": [[0.0, 0.1, 0.2, 2.0], [-1.0, 0.0, 0.5, 4.0]]}, 10.0)]
     fams = extra + [("cart", {"n": [1, 1]}, 1.0), ("cart", {"n": [2, 1]}, 2.0), ("cart", {"n": [2, 3], "phys": [1.0, 0.75]}, 0.75), ("cart", {"n": [3, 3]}, 9.0),
